@@ -61,7 +61,7 @@ static void observe(Ev &e) {
     const int LIM = 4 * NC + 4;
     std::vector<long long> nx(NC), pv(NC), linked(NC), size(NH), rsize(NH), empty(NH), correct(NH), cyc(NH, 0);
     std::vector<std::vector<long long>> fwd(NH), bwd(NH), inm(NH), efwd(NH), ebwd(NH), esafe(NH);
-    std::vector<long long> first(NH, -1), last(NH, -1), chk(NH, -1), chkr(NH, -1);   // entry accessors, bounded cycle checks
+    std::vector<long long> first(NH, -1), last(NH, -1), chk(NH, -1), chkr(NH, -1), first2(NH, -1), last2(NH, -1);   // entry accessors, bounded cycle checks
     for (int c = 0; c < NC; ++c) {
         if (!alive[c]) { nx[c] = pv[c] = -2; linked[c] = -1; continue; }
         if (flavor == "c") { nx[c] = cidx(cptr(c)->next); pv[c] = cidx(cptr(c)->prev); linked[c] = dlist_is_linked(cptr(c)) ? 1 : 0; }
@@ -89,7 +89,11 @@ static void observe(Ev &e) {
                   dlist_for_each_entry_reverse(pos, cptr(h), lnk) { ebwd[h].push_back(pos->key); if (++st2 > LIM) break; } st2 = 0;
                   dlist_for_each_entry_safe(pos, nx2, cptr(h), lnk) { esafe[h].push_back(pos->key); if (++st2 > LIM) break; }
                   if (!dlist_empty(cptr(h))) { first[h] = dlist_first_entry(cptr(h), CItem, lnk)->key; last[h] = dlist_last_entry(cptr(h), CItem, lnk)->key; }
-                  chk[h] = dlist_check(cptr(h), LIM); chkr[h] = dlist_check_reversed(cptr(h), LIM); }
+                  chk[h] = dlist_check(cptr(h), LIM); chkr[h] = dlist_check_reversed(cptr(h), LIM);
+                  // the entry macro with compound link expressions (a conditional, pointer arithmetic): walk forward and backward with one loop body
+                  if (!dlist_empty(cptr(h))) { int bw = 0; struct dlist_head *hh = cptr(h);
+                      first2[h] = dlist_entry(bw ? hh->prev : hh->next, CItem, lnk)->key; bw = 1; last2[h] = dlist_entry(bw ? hh->prev : hh->next, CItem, lnk)->key;
+                      struct dlist_head *arr[2] = {hh->prev, hh->next}; struct dlist_head **ap = arr; int one = 1; if (dlist_entry(*(ap + one), CItem, lnk)->key != first2[h]) first2[h] = -6; } }
                 for (int c = NH; c < NC; ++c) if (alive[c]) inm[h].push_back(dlist_in(cptr(c), cptr(h)) ? c : -1);
             } else size[h] = rsize[h] = empty[h] = correct[h] = -3;
         } else {
@@ -103,7 +107,7 @@ static void observe(Ev &e) {
                 for (auto it = L.end(); it != L.begin();) { --it; ebwd[h].push_back(xidx_item(&*it)); if (++st2 > LIM) break; } st2 = 0;
                 for (auto it = L.rend(); it != L.rbegin();) { --it; efwd[h].push_back(xidx_item(&*it)); if (++st2 > LIM) break; } st2 = 0;
                 for (auto it = L.begin(); it != L.end();) { auto cur = it++; esafe[h].push_back(xidx_item(&*cur)); if (++st2 > LIM) break; }
-                if (!L.empty()) { first[h] = xidx_item(&L.front()); last[h] = xidx_item(&L.back()); if (&L.first() != &L.front()) first[h] = -5; }
+                if (!L.empty()) { first[h] = xidx_item(&L.front()); last[h] = xidx_item(&L.back()); if (&L.first() != &L.front()) first[h] = -5; first2[h] = first[h]; last2[h] = last[h]; }
                 chk[h] = (long)xnode(h)->circular_size() - 1; chkr[h] = (long)xnode(h)->reverse_circular_size() - 1; }
             else size[h] = rsize[h] = empty[h] = correct[h] = -3;
         }
@@ -115,7 +119,7 @@ static void observe(Ev &e) {
     e.ints("all2", all2);
     e.ints("nx", nx).ints("pv", pv).ints("linked", linked).raw("fwd", arr2(fwd)).raw("bwd", arr2(bwd))
      .ints("size", size).ints("rsize", rsize).ints("empty", empty).ints("correct", correct).raw("inm", arr2(inm))
-     .raw("efwd", arr2(efwd)).raw("ebwd", arr2(ebwd)).raw("esafe", arr2(esafe)).ints("first", first).ints("last", last).ints("chk", chk).ints("chkr", chkr);
+     .raw("efwd", arr2(efwd)).raw("ebwd", arr2(ebwd)).raw("esafe", arr2(esafe)).ints("first", first).ints("last", last).ints("first2", first2).ints("last2", last2).ints("chk", chk).ints("chkr", chkr);
 }
 
 static int any_live_head() { for (int h = 0; h < NH; ++h) if (alive[h]) return h; return -1; }
